@@ -221,6 +221,7 @@ type Exec struct {
 	rootEnv    *SpecEnv
 	prune      bool               // second attempt after a path explosion: branches are checked for feasibility
 	pruneStart time.Time
+	deadline   time.Time // symbolic execution of one function gives up (a lost proof, reported) after GenBudget
 	forks      int                // symbolic branches taken so far in this function
 	regexObjs  map[int]string     // compiled regular expressions (object id -> pattern)
 	cryptoObjs map[int]*cryptoObj // modelled cipher / hash objects (object id -> immutable part)
